@@ -19,6 +19,7 @@ import (
 	"crypto/sha256"
 	"encoding/json"
 	"fmt"
+	"net/http"
 	"os"
 	"os/exec"
 	"path/filepath"
@@ -42,6 +43,11 @@ import (
 
 // Worker: `vh worker <config> <token>` - what relic's own binary does for `relic worker ...`
 func Worker(args []string) {
+	// a process that is slow to start (a loaded machine): widens, without creating, the interval between the parent's
+	// exec and this process taking over the inherited listening socket
+	if d, err := time.ParseDuration(os.Getenv("VERIF_WORKER_START_DELAY")); err == nil && d > 0 {
+		time.Sleep(d)
+	}
 	root := &cobra.Command{Use: "vh"}
 	workercmd.AddWorkerCommand(root)
 	root.SetArgs(append([]string{"worker"}, args...))
@@ -75,6 +81,8 @@ type world struct {
 	rsa *rsa.PrivateKey
 	log *logger
 	r   *res.Result
+	// close-during-respawn: how long after the kill Close is called
+	closeDelay time.Duration
 }
 
 func children() []int {
@@ -249,6 +257,106 @@ var scenarios = []scenario{
 		w.m.SetDelay("SignInit", 0)
 	}},
 	{name: "wrong-pin-at-start", workers: 1, pin: newPin, retries: 2, wantNew: false, run: nil},
+	{name: "respawn-slow-start", workers: 2, pin: rightPin, retries: 6, wantNew: true, run: func(w *world, tok *worker.WorkerToken, sc *scenario) {
+		// two workers share the listening socket. One is lost; its successor is slow to start. While the successor is
+		// starting, exactly one connection arrives (served by the surviving sibling), then nothing. Later the token is
+		// closed: the sibling must be able to stop listening and leave like everybody else
+		w.expect(sc, waitFor(20*time.Second, func() bool { return w.counts().loginOK == 2 }), "second worker never logged in: %+v", w.counts())
+		w.expect(sc, w.sign(tok, 0) == nil, "first request failed")
+		os.Setenv("VERIF_WORKER_START_DELAY", "600ms")
+		defer os.Unsetenv("VERIF_WORKER_START_DELAY")
+		pids := children()
+		w.log.ev(map[string]any{"ev": "Kill"})
+		syscall.Kill(pids[0], syscall.SIGKILL)
+		// the parent has started the successor once a third pid has shown up
+		waitFor(5*time.Second, func() bool {
+			for _, p := range children() {
+				if p != pids[0] && p != pids[1] {
+					return true
+				}
+			}
+			return false
+		})
+		time.Sleep(100 * time.Millisecond)
+		http.DefaultClient.CloseIdleConnections()
+		w.expect(sc, w.sign(tok, 1) == nil, "the request during the successor's start failed")
+		w.expect(sc, waitFor(20*time.Second, func() bool { return w.counts().loginOK == 3 }), "no successor: %+v", w.counts())
+		os.Unsetenv("VERIF_WORKER_START_DELAY")
+		http.DefaultClient.CloseIdleConnections()
+		time.Sleep(200 * time.Millisecond)
+		w.log.ev(map[string]any{"ev": "CloseBegin"})
+		done := make(chan struct{})
+		go func() { tok.Close(); close(done) }()
+		select {
+		case <-done:
+			w.log.ev(map[string]any{"ev": "CloseEnd"})
+		case <-time.After(15 * time.Second):
+			w.expect(sc, false, "WorkerToken.Close did not return within 15 s: a worker that was accepting connections while its sibling's successor started cannot stop listening (worker processes still alive: %v)", children())
+			for _, p := range children() {
+				syscall.Kill(p, syscall.SIGKILL)
+			}
+			<-done
+		}
+	}},
+	{name: "respawn-under-load", workers: 2, pin: rightPin, retries: 6, wantNew: true, run: func(w *world, tok *worker.WorkerToken, sc *scenario) {
+		// two workers share the listening socket. One is lost while fresh connections keep arriving, so its sibling
+		// is in and out of accept() at the very moment the parent starts the successor; afterwards everything goes
+		// quiet and the token is closed: every worker must still be able to stop listening and leave
+		w.expect(sc, waitFor(20*time.Second, func() bool { return w.counts().loginOK == 2 }), "second worker never logged in: %+v", w.counts())
+		for round := 0; round < 3; round++ {
+			pids := children()
+			if len(pids) == 0 {
+				break
+			}
+			w.log.ev(map[string]any{"ev": "Kill"})
+			syscall.Kill(pids[round%len(pids)], syscall.SIGKILL)
+			end := time.Now().Add(250 * time.Millisecond)
+			for i := 0; time.Now().Before(end); i++ {
+				http.DefaultClient.CloseIdleConnections() // every request on a fresh connection: one more accept()
+				w.expect(sc, w.sign(tok, 100*round+i) == nil, "request %d of round %d failed", i, round)
+			}
+			want := 3 + round
+			w.expect(sc, waitFor(20*time.Second, func() bool { return w.counts().loginOK >= want }), "no successor in round %d: %+v", round, w.counts())
+		}
+		http.DefaultClient.CloseIdleConnections()
+		time.Sleep(300 * time.Millisecond)
+		w.log.ev(map[string]any{"ev": "CloseBegin"})
+		done := make(chan struct{})
+		go func() { tok.Close(); close(done) }()
+		select {
+		case <-done:
+			w.log.ev(map[string]any{"ev": "CloseEnd"})
+		case <-time.After(20 * time.Second):
+			w.expect(sc, false, "WorkerToken.Close did not return within 20 s after workers had been replaced under load; worker processes still alive: %v", children())
+			for _, p := range children() {
+				syscall.Kill(p, syscall.SIGKILL)
+			}
+			<-done
+		}
+	}},
+	{name: "close-during-respawn", workers: 1, pin: rightPin, retries: 2, wantNew: true, run: func(w *world, tok *worker.WorkerToken, sc *scenario) {
+		// the worker is lost and Close arrives while monitor() is starting its successor: Close must still return, and
+		// nothing it did not signal may stay behind
+		w.expect(sc, w.sign(tok, 0) == nil, "first request failed")
+		w.log.ev(map[string]any{"ev": "Kill"})
+		for _, p := range children() {
+			syscall.Kill(p, syscall.SIGKILL)
+		}
+		time.Sleep(w.closeDelay)
+		w.log.ev(map[string]any{"ev": "CloseBegin"})
+		done := make(chan struct{})
+		go func() { tok.Close(); close(done) }()
+		select {
+		case <-done:
+			w.log.ev(map[string]any{"ev": "CloseEnd"})
+		case <-time.After(20 * time.Second):
+			w.expect(sc, false, "WorkerToken.Close did not return within 20 s (called %v after the worker was killed); child processes %v", w.closeDelay, children())
+			for _, p := range children() {
+				syscall.Kill(p, syscall.SIGKILL)
+			}
+			<-done
+		}
+	}},
 	{name: "pin-changed", workers: 1, pin: rightPin, retries: 2, wantNew: true, run: func(w *world, tok *worker.WorkerToken, sc *scenario) {
 		w.expect(sc, w.sign(tok, 0) == nil, "first request failed")
 		// the PIN is changed on the token; later the worker is lost: every respawn submits the old PIN again
@@ -298,10 +406,32 @@ func Run(args []string) {
 	m.AddKeyPair(0, "k1", []byte{1}, rk)
 	m.AddKeyPair(0, "k2", []byte{2}, ek)
 	w := &world{dir: dir, m: m, rsa: rk, r: r}
-	for i := range scenarios {
-		sc := &scenarios[i]
-		if len(want) > 0 && !want[sc.name] {
+	var list []scenario
+	for _, sc := range scenarios {
+		if sc.name == "close-during-respawn" {
+			// Close at many distances from the kill: somewhere in there monitor() is between starting the successor and
+			// having registered it
+			n := 24
+			fmt.Sscan(os.Getenv("VERIF_RESPAWN_REPS"), &n)
+			for k := 0; k < n; k++ {
+				c := sc
+				c.name = fmt.Sprintf("close-during-respawn-%02d", k)
+				list = append(list, c)
+			}
 			continue
+		}
+		list = append(list, sc)
+	}
+	nresp := 0
+	for i := range list {
+		sc := &list[i]
+		base0 := strings.TrimRight(sc.name, "0123456789-")
+		if len(want) > 0 && !want[sc.name] && !want[base0] {
+			continue
+		}
+		if base0 == "close-during-respawn" {
+			w.closeDelay = time.Duration(nresp%12) * 700 * time.Microsecond
+			nresp++
 		}
 		f, err := os.Create(filepath.Join(outDir, sc.name+".ndjson"))
 		if err != nil {
@@ -344,7 +474,7 @@ func Run(args []string) {
 			if sc.run != nil {
 				sc.run(w, tok, sc)
 			}
-			if sc.name != "close-in-flight" {
+			if sc.name != "close-in-flight" && sc.name != "respawn-under-load" && sc.name != "respawn-slow-start" && !strings.HasPrefix(sc.name, "close-during-respawn") {
 				lg.ev(map[string]any{"ev": "CloseBegin"})
 				tok.Close()
 				lg.ev(map[string]any{"ev": "CloseEnd"})
